@@ -256,6 +256,38 @@ def resource_programs():
     return out
 
 
+# what a string may hold, as written in the source and as the name of the file it spells
+# (for include directives)
+STRING_FORMS = [("bslash", "a\\\\b", "a\\b"), ("bslash_end", "ab\\\\", "ab\\"), ("bslash_t", "a\\\\tb", "a\\tb"),
+                ("quote", "a\\\"b", "a\"b"), ("uni", "a\\u00e9b", "a\u00e9b"), ("raw_uni", "a\u00e9b", "a\u00e9b"),
+                ("hash", "a#b", "a#b"), ("quote_end", "ab\\\"", "ab\""), ("bslash_u", "a\\\\u0041", "a\\u0041")]
+
+
+def string_position_programs():
+    """every position of the grammar that holds a string (help text, output file name, stage
+    code with arguments, special resource, struct member help / name, include file name,
+    map key) with every form of STRING_FORMS"""
+    out = []
+    for tag, lit, name in STRING_FORMS:
+        pos = {
+            "help": "stage S(\n    in  int x \"%s\",\n    src py \"s\",\n)\n" % lit,
+            "outname": "stage S(\n    in  int x,\n    out file f \"h\" \"%s\",\n    src py \"s\",\n)\n" % lit,
+            "src": "stage S(\n    in  int x,\n    src comp \"bin/%s\",\n)\n" % lit,
+            "src_args": "stage S(\n    in  int x,\n    src comp \"bin/s  %s   z%s\",\n)\n" % (lit, lit),
+            "src_exec": "stage S(\n    in  int x,\n    src exec \"%s run\",\n)\n" % lit,
+            "special": "stage S(\n    in  int x,\n    src py \"s\",\n) using (\n    special = \"%s\",\n)\n" % lit,
+            "member": "filetype t;\n\nstruct T(\n    int a \"%s\",\n    t   f \"h\" \"%s\",\n)\n" % (lit, lit),
+            "key": "stage S(\n    in  map x,\n    src py \"s\",\n)\n\ncall S(\n    x = {\"%s\": 1},\n)\n" % lit,
+        }
+        for pn in sorted(pos):
+            out.append({"id": "str:%s:%s" % (pn, tag), "files": {"p.mro": pos[pn]}, "top": "p.mro"})
+        inc = "stage I(\n    in  int x,\n    src py \"i\",\n)\n"
+        out.append({"id": "str:include:%s" % tag, "top": "top.mro",
+                    "files": {"top.mro": "@include \"%s.mro\"\n@include \"sub/%s.mro\"\n\ncall I(\n    x = 1,\n)\n" % (lit, lit),
+                              name + ".mro": inc, "sub/" + name + ".mro": "filetype t;\n"}})
+    return out
+
+
 def every_line(src, tag):
     """the source with one comment inserted before each line in turn (and at the end)"""
     lines = src.split("\n")
@@ -275,6 +307,7 @@ def corpus(tier, repo="/repo"):
     for i, s in enumerate(HELPS + MODIFIER_SYNTAXES + COMMENTED + EMPTY_CLAUSES):
         out.append({"id": "hand%d" % i, "files": {"p.mro": s}, "top": "p.mro"})
     out += resource_programs()
+    out += string_position_programs()
     out += include_graphs()
     out += repo_sets(repo)
     progs = shapes.catalogue() + fshapes.catalogue() + [gen.gen_program(s) for s in range(20 if tier == "quick" else 200)]
